@@ -96,6 +96,19 @@ def main():
         meta["what_was_run"] = "patch applied to a scratch worktree of /repo (git worktree add; git apply), checks run with VERIF_REPO=<worktree> ./check <id> (quick tier), worktree removed"
         json.dump(meta, open(mp, "w"), indent=1)
         print(name, {c: (r["rc"], r["first_clause"]) for c, r in res.items()})
+    elif cmd == "runall":
+        # every confirmed change against the check of the property it targets (plus the checks that caught it before)
+        for name in sorted(os.listdir(SD)):
+            mp = os.path.join(SD, name, "meta.json")
+            if not os.path.exists(mp):
+                continue
+            meta = json.load(open(mp))
+            checks = sorted(set([meta["breaks_property"]] + meta.get("caught_by", [])))
+            res = run_checks(name, checks)
+            meta["checks_run"] = dict(meta.get("checks_run", {}), **res)
+            meta["caught_by"] = sorted(c for c, r in meta["checks_run"].items() if r["rc"] == 1)
+            json.dump(meta, open(mp, "w"), indent=1)
+            print(name, {c: (r["rc"], r["first_clause"]) for c, r in res.items()}, flush=True)
     elif cmd == "results":
         rows = []
         for name in sorted(os.listdir(SD)):
